@@ -108,14 +108,15 @@ class SeqV:
     Mutable kinds (list, bytearray) live in the heap as the content of a SeqCell.
     """
 
-    __slots__ = ("kind", "elem", "items", "arr", "length")
+    __slots__ = ("kind", "elem", "items", "arr", "length", "peel")
 
-    def __init__(self, kind, elem=None, items=None, arr=None, length=None):
+    def __init__(self, kind, elem=None, items=None, arr=None, length=None, peel=None):
         self.kind = kind
         self.elem = elem
         self.items = items
         self.arr = arr
         self.length = length
+        self.peel = peel   # (prefix items, tail SeqV) when built as concrete-shape prefix ++ symbolic tail
 
     def __repr__(self):
         if self.items is not None:
@@ -326,10 +327,16 @@ UF_F32B = [z3.Function(f"f32_byte{k}", F64, _I) for k in range(4)]
 UF_F64B = [z3.Function(f"f64_byte{k}", F64, _I) for k in range(8)]
 
 
+PS = z3.Function("prefix_sum", z3.ArraySort(_I, _I), _I, _I)
+
+
 def background_axioms():
     """Range facts of the byte-producing functions (always sound: a byte is 0..255)."""
     v = z3.FP("bg!v", F64)
     out = []
     for f in UF_F32B + UF_F64B:
         out.append(z3.ForAll([v], z3.And(f(v) >= 0, f(v) <= 255), patterns=[f(v)]))
+    a = z3.Array("bg!a", _I, _I)
+    i = z3.Int("bg!i")
+    out.append(z3.ForAll([a, i], z3.If(i <= 0, PS(a, i) == 0, PS(a, i) == PS(a, i - 1) + z3.Select(a, i - 1)), patterns=[PS(a, i)]))
     return out
